@@ -103,6 +103,13 @@ def inPipeFragment (i : PipeIn) : Bool :=
   | none => false
   | some s => fragMono i s && fragLift s && fragAnf s
 
+/-- the fragment of `pipeline_preserves_partial` (chain from the Mono program on): the Core → Mono
+    link is left to the per-program validation (e.g. because of `ETraitCall`) -/
+def inLiftAnfFragment (i : PipeIn) : Bool :=
+  match stages i with
+  | none => false
+  | some s => fragLift s && fragAnf s
+
 /-- why a program is outside (reports only): one entry per failing conjunct -/
 def pipeReasons (i : PipeIn) : List String :=
   match Mono.mono monoFuel tyFuel i.enums i.structs i.prog.fns with
